@@ -999,3 +999,50 @@ Qed.
 
 (* a framing break reaches every pending request: from the raise to the end of the broadcast there is no blocking
    label, and at the end every written, unanswered request is failed (this is c04_all_failed_after_broadcast) *)
+
+(* ---------- group C: a stored reply is one the worker actually received ---------- *)
+Record InvC (s : st) : Prop := {
+  c_src : forall rid r i, rq s rid = Some r -> r_reply r = Some i -> In i (rlog s);
+  c_look : forall i, pc s = WLookup i -> In i (rlog s);
+  c_deliv : forall rid i, pc s = WDeliver rid i -> In i (rlog s)
+}.
+
+Lemma rlog_mono s l s' : step s l = Some s' -> forall i, In i (rlog s) -> In i (rlog s').
+Proof.
+  intros H i Hi. destruct l; inv_step H; simpl; auto.
+  all: try (destruct (qualify s); simpl; auto).
+  all: try (apply in_or_app; auto).
+Qed.
+
+Lemma InvC_init q : InvC (init q).
+Proof.
+  constructor; simpl; unfold rq; simpl; try (intros; discriminate).
+  intros [|rid] r i; simpl; discriminate.
+Qed.
+
+Lemma InvC_step s l s' : InvC s -> step s l = Some s' -> InvC s'.
+Proof.
+  intros [Hs Hl Hd] H. pose proof (rlog_mono _ _ _ H) as Hm. constructor.
+  - intros rid r' i Hr Hrep.
+    destruct (rq_step _ _ _ _ _ H Hr) as [Hu|[(r & c & Hu & -> & _)|[(r & id & Hu & -> & Hpc)|[(r & e & rest & Hu & -> & _)|(_ & id & _ & ->)]]]];
+      simpl in Hrep; try discriminate; eauto.
+    injection Hrep as <-. eauto.
+  - intros i Hp. destruct l; inv_step H; simpl in Hp |- *; try discriminate; try (apply Hm; simpl; eauto; fail); eauto.
+    all: try (destruct (qualify s); simpl in Hp |- *; try discriminate; eauto).
+    all: try solve [injection Hp as <-; apply in_or_app; right; simpl; auto].
+    all: try solve [apply is_idle_true in E; congruence].
+    all: try solve [exfalso; congruence].
+  - intros rid i Hp. destruct l; inv_step H; simpl in Hp |- *; try discriminate; eauto.
+    all: try (destruct (qualify s); simpl in Hp |- *; try discriminate; eauto).
+    all: try solve [apply is_idle_true in E; congruence].
+    all: try solve [exfalso; congruence].
+    all: try solve [injection Hp as <- <-; apply N.eqb_eq in E0; subst; eapply Hl; eauto].
+    all: try solve [apply in_or_app; left; eauto].
+Qed.
+
+Lemma reach_InvC s : reach s -> InvC s.
+Proof. intros (q & ls & H). eapply (run_inv InvC InvC_step); [apply InvC_init|exact H]. Qed.
+
+(* C03: replies are never invented: what a request holds was looked up for an inbound message with that id *)
+Lemma c03_reply_was_received s rid r i : reach s -> rq s rid = Some r -> r_reply r = Some i -> In i (rlog s).
+Proof. intros Hr. apply (c_src _ (reach_InvC _ Hr)). Qed.
